@@ -141,6 +141,22 @@ type Tracker struct {
 	mu       sync.Mutex
 	Problems []string
 	Resets   atomic.Int64
+	events   []string // "R" Reset(source), "C" Close, "P" parking Reset, in order
+}
+
+func (t *Tracker) event(e string) {
+	t.mu.Lock()
+	t.events = append(t.events, e)
+	t.mu.Unlock()
+}
+
+// Events returns and clears the event log.
+func (t *Tracker) Events() []string {
+	t.mu.Lock()
+	defer t.mu.Unlock()
+	e := t.events
+	t.events = nil
+	return e
 }
 
 func (t *Tracker) problem(s string) {
@@ -171,12 +187,20 @@ func (d *trackedDecompressor) Reset(r io.Reader) error {
 	switch d.state {
 	case 0:
 		d.state = 1
+		d.tr.event("R")
 	case 2:
 		d.state = 0 // the parking Reset of putDecompressor
+		d.tr.event("P")
 	default:
 		d.tr.problem("a pooled decompressor was handed to a call while another call still held it")
+		d.tr.event("R")
 	}
 	d.mu.Unlock()
+	// a source that announces itself as unreadable: Reset fails (as gzip.Reader.Reset
+	// does on a bad header)
+	if bb, ok := r.(*bytes.Buffer); ok && bb.Len() > 0 && bb.Bytes()[0] == '!' {
+		return errors.New("tracked decompressor: bad header")
+	}
 	return d.inner.Reset(r)
 }
 
@@ -191,6 +215,7 @@ func (d *trackedDecompressor) Close() error {
 	if d.state != 1 {
 		d.tr.problem("a pooled decompressor was released twice for one acquisition (it is now in the pool twice)")
 	}
+	d.tr.event("C")
 	d.state = 2
 	d.mu.Unlock()
 	return nil
